@@ -5,6 +5,13 @@
            shipped/fixed: result of is_connected / is_connected_fixed: 0 | 1 | OOB:site:idx:size | FUEL
      S <N> (<len> <entries>)*        explicit graph with its own list lengths (the implementation's output)
         -> "S <wf> <uniform> <strong> <from_first> <len_0>"
+     H <N> (<len> <entries>)*        explicit graph with its own list lengths (arbitrary Neighbors)
+        -> "G <shipped> <fixed> <wf> <uniform> <strong> <from_first>"   (as G)
+     X <k> <N> T <n> then n times: <k_j> <N> (<len> <entries>)* 
+                                     find_neighbors (current connected.hpp = is_connected_fixed) with the
+                                     search replaced by the given table of lists (the implementation's own
+                                     lists for every k_j): which k_j the recursion stops at
+        -> "X <k'>"   | OOB:... | FUEL      (a k_j missing from the table gives the empty graph -> OOB)
      F <k> <dim> <N> <N*dim ints>    find_neighbors over the reference exact k-NN search on integer points (L1)
         -> "F <fixed> <shipped>"     each: the k finally used | OOB:... | FUEL
      K <k> <dim> <N> <N*dim ints>    strong connectivity of the exact k-NN graph (no doubling)
@@ -70,6 +77,26 @@ let () =
              Printf.printf "G %s %s %s %s %s %s\n"
                (show_res (is_connected nn g)) (show_res (is_connected_fixed nn g))
                (b01 (wf_b nn g)) (b01 (uniform_b g)) (b01 (strong_b nn g)) (b01 (from_first_b nn g))
+           | "H" ->
+             let n = take_int toks in
+             let g = List.init n (fun _ -> let len = take_int toks in read_row toks len) in
+             let nn = nat_of_int n in
+             Printf.printf "G %s %s %s %s %s %s\n"
+               (show_res (is_connected nn g)) (show_res (is_connected_fixed nn g))
+               (b01 (wf_b nn g)) (b01 (uniform_b g)) (b01 (strong_b nn g)) (b01 (from_first_b nn g))
+           | "X" ->
+             let k = take_int toks in
+             let n = take_int toks in
+             (match !toks with "T" :: rest -> toks := rest | _ -> raise Bad);
+             let nt = take_int toks in
+             let table = List.init nt (fun _ ->
+               let kj = take_int toks in
+               let n' = take_int toks in
+               let g = List.init n' (fun _ -> let len = take_int toks in read_row toks len) in
+               (kj, g)) in
+             let knn kk = try List.assoc (int_of_nat kk) table with Not_found -> [] in
+             let nn = nat_of_int n in
+             Printf.printf "X %s\n" (show_fn (find_neighbors is_connected_fixed knn nn nn (nat_of_int k) true))
            | "S" ->
              let n = take_int toks in
              let g = List.init n (fun _ -> let len = take_int toks in read_row toks len) in
